@@ -123,6 +123,8 @@ struct LogState {
     total_lines: i64,
     status: String,
     start_time: Instant,
+    /// Set for the duration of a `catlog` call made because a record in a log names a target.
+    from_record: bool,
 }
 
 impl LogState {
@@ -133,6 +135,7 @@ impl LogState {
             total_lines: 0,
             status: String::new(),
             start_time: Instant::now(),
+            from_record: false,
         }
     }
 
@@ -149,6 +152,8 @@ impl LogState {
         let topdir = env::current_dir()?;
         let mut lines_written: i64 = 0;
         let mut interrupted: i64 = 0;
+        // Only a target named by the user has to be known to redo.
+        let named_by_user = !mem::replace(&mut self.from_record, false);
         if !self.already.insert(t.to_string()) {
             return Ok(0);
         }
@@ -166,6 +171,17 @@ impl LogState {
                     let mut ptx = ProcessTransaction::new(ps, TransactionBehavior::Deferred)?;
                     match redo::File::from_name(&mut ptx, t, false) {
                         Ok(sf) => sf.id(),
+                        Err(e) if e.kind() == &RedoErrorKind::FileNotFound && !named_by_user => {
+                            // A record in some log names a file redo knows nothing about:
+                            // a build script wrote a line to stderr that looks like one of
+                            // our records.  There is nothing to show for it, and it must
+                            // not end the viewer (and with it all output that follows).
+                            if t.as_str() != "-" {
+                                self.depth.pop();
+                            }
+                            self.fix_depth();
+                            return Ok(0);
+                        }
                         Err(e) if e.kind() == &RedoErrorKind::FileNotFound => {
                             eprintln!(
                                 "redo-log: [{}] {:?}: not known to redo.",
@@ -338,6 +354,7 @@ impl LogState {
                                     // names ("../c" from two directories) is shown once.
                                     let new_t = mydir.join(RedoPath::from_str(g.text())?);
                                     let new_t = new_t.normpath();
+                                    self.from_record = true;
                                     let got = self.catlog(ps, matches, show_status, &new_t)?;
                                     interrupted += got;
                                     lines_written += got;
@@ -368,6 +385,7 @@ impl LogState {
                                 // names ("../c" from two directories) is shown once.
                                 let new_t = mydir.join(RedoPath::from_str(g.text())?);
                                 let new_t = new_t.normpath();
+                                self.from_record = true;
                                 let got = self.catlog(ps, matches, show_status, &new_t)?;
                                 interrupted += got;
                                 lines_written += got;
